@@ -398,21 +398,29 @@ def getQueryComponents (q : AQuery) : Res Components :=
               limit := limit
               offset := offset }
 
+/-- One arm of the `match elem` in `get_projection`. -/
+def convertItem : SelItem → Res ColumnInfo
+  | .unnamed e display => do
+      let x ← convertExpr e
+      pure { expr := x, name := stripQuotes display }
+  | .wildcard => .ok { expr := .col "*", name := "*" }
+  | .aliased e a => do
+      let x ← convertExpr e
+      pure { expr := x, name := stripQuotes a }
+  | .other => .err .notimpl
+
 /-- `get_projection`: stops at the first item that fails. -/
 def getProjection : List SelItem → Res (List ColumnInfo)
   | [] => .ok []
   | item :: rest => do
-      let ci ← match item with
-        | .unnamed e display => do
-            let x ← convertExpr e
-            pure { expr := x, name := stripQuotes display : ColumnInfo }
-        | .wildcard => pure { expr := .col "*", name := "*" : ColumnInfo }
-        | .aliased e a => do
-            let x ← convertExpr e
-            pure { expr := x, name := stripQuotes a : ColumnInfo }
-        | .other => .err .notimpl
+      let ci ← convertItem item
       let cis ← getProjection rest
       pure (ci :: cis)
+
+/-- The `match selection` of `parse_query`: no WHERE clause is the constant 1. -/
+def getFilter : Option AExpr → Res Expr
+  | some s => convertExpr s
+  | none => .ok (.const (.int 1))
 
 def getTableName : Option TableFactor → Res String
   | some (.table display) => .ok (stripQuotes display)
@@ -461,9 +469,7 @@ def parseQuery : Parsed → Res Query
           let c ← getQueryComponents q
           let projection ← getProjection c.projection
           let table ← getTableName c.relation
-          let filter ← match c.selection with
-            | some s => convertExpr s
-            | none => pure (.const (.int 1))
+          let filter ← getFilter c.selection
           let orderBy ← getOrderBy c.orderBy
           let limit ← getLimit c.limit
           let offset ← getOffset c.offset
